@@ -288,6 +288,7 @@ func appendStats(root, child map[string]any) {
 }
 
 func (m *CPU) flush(pc int32) {
+	m.ctx.VerifProbe(risc.VerifProbeFlush)
 	m.fetchUnit.flush(pc)
 	m.decodeUnit.flush()
 	m.controlUnit.flush()
